@@ -350,6 +350,15 @@ fn main() {
     for t in wild_witnesses() {
         emit_rt(&mut out, &t, "witness");
     }
+    // fixed probes of the deserialisation quirks the model states (always run)
+    for (kind, text) in PROBES {
+        let doc = J::parse(text).expect("probe parses");
+        match *kind {
+            "table" => emit_mut::<TableDef>(&mut out, &doc, &["probe"]),
+            "plan" => emit_mut::<MigrationPlan>(&mut out, &doc, &["probe"]),
+            _ => emit_mut::<VespertideConfig>(&mut out, &doc, &["probe"]),
+        }
+    }
     for _ in 0..n {
         let profile = if rng.chance(1, 2) { Profile::Engine } else { Profile::Loader };
         let evo = gener::gen_evolution(&mut rng, steps, profile, &mut rejected);
@@ -371,7 +380,7 @@ fn main() {
     for _ in 0..nmut {
         let (kind, base) = rng.pick(&bases).clone();
         let mut doc = base;
-        let k = rng.range(1, 3);
+        let k = if rng.chance(2, 3) { 1 } else { 2 };
         let mut labels = vec![];
         for _ in 0..k {
             labels.push(mutate::mutate_once(&mut rng, &mut doc));
@@ -406,6 +415,55 @@ fn main() {
     .unwrap();
     println!("cases={} shards={}", out.side.len(), names.len());
 }
+
+const PROBES: &[(&str, &str)] = &[
+    // unit variant as {"v": {}}: accepted only out of an owned ContentDeserializer (fields of a tagged variant)
+    ("table", r#"{"name":"t","columns":[],"constraints":[{"type":"foreign_key","columns":["a"],"ref_table":"u","ref_columns":["id"],"on_delete":{"cascade":{}},"on_update":null}]}"#),
+    ("table", r#"{"name":"t","columns":[],"constraints":[{"type":"foreign_key","columns":["a"],"ref_table":"u","ref_columns":["id"],"on_delete":{"cascade":null},"on_update":{"set_null":0}}]}"#),
+    ("table", r#"{"name":"t","columns":[{"name":"c","type":{"integer":{}},"nullable":true}]}"#),
+    ("table", r#"{"name":"t","columns":[{"name":"c","type":{"integer":null},"nullable":true}]}"#),
+    ("table", r#"{"name":"t","columns":[{"name":"c","type":"integer","nullable":true,"foreign_key":{"references":"a.b","on_delete":{"cascade":{}}}}]}"#),
+    ("table", r#"{"name":"t","columns":[{"name":"c","type":"integer","nullable":true,"foreign_key":{"references":"a.b","on_delete":{"cascade":null}}}]}"#),
+    ("plan", r#"{"version":1,"actions":[{"type":"add_column","table":"t","column":{"name":"c","type":{"integer":{}},"nullable":true},"fill_with":null}]}"#),
+    // integer variant index as tag: only below buffered Content
+    ("plan", r#"{"version":1,"actions":[{"type":"add_constraint","table":"t","constraint":{"type":2,"columns":["a"],"ref_table":"u","ref_columns":["id"],"on_delete":{"cascade":{}}}}]}"#),
+    ("plan", r#"{"version":1,"actions":[{"type":"add_constraint","table":"t","constraint":{"type":5,"columns":["a"]}}]}"#),
+    ("plan", r#"{"version":1,"actions":[{"type":1,"table":"t"}]}"#),
+    ("table", r#"{"name":"t","columns":[{"name":"c","type":{"kind":0,"length":3},"nullable":true}],"constraints":[{"type":4,"columns":["c"]}]}"#),
+    ("table", r#"{"name":"t","columns":[{"name":"c","type":{"kind":0,"length":3},"nullable":true}]}"#),
+    ("table", r#"{"name":"t","columns":[{"name":"c","type":{"kind":4,"name":"e","values":[["a",1],{"value":2,"name":"b"}]},"nullable":true}]}"#),
+    ("config", r#"{"modelsDir":"m","migrationsDir":"g","tableNamingCase":{"snake":{}},"columnNamingCase":"snake"}"#),
+    ("config", r#"{"modelsDir":"m","migrationsDir":"g","tableNamingCase":{"snake":null},"columnNamingCase":"snake"}"#),
+    ("config", r#"["m","g","snake","pascal"]"#),
+    ("config", r#"["m","g","snake"]"#),
+    // positional forms and defaults
+    ("table", r#"{"name":"t","columns":[{"name":"c","type":"integer","nullable":true,"primary_key":[]}]}"#),
+    ("table", r#"{"name":"t","columns":[{"name":"c","type":"integer","nullable":true,"primary_key":[true,1]}]}"#),
+    ("table", r#"{"name":"t","columns":[["c","integer",true]]}"#),
+    ("table", r#"{"name":"t","columns":[["c","integer",true,null,null,null,null,null,null]]}"#),
+    ("table", r#"["t",null,[]]"#),
+    ("table", r#"["t",null,[],[],1]"#),
+    ("plan", r#"["i",null,null,1,[["delete_table","t"],["add_column","t",{"name":"c","type":"text","nullable":true},null],["modify_column_type","t","c","text"]]]"#),
+    ("plan", r#"{"version":1,"actions":[["add_column","t",{"name":"c","type":"text","nullable":true}]]}"#),
+    // missing / null / duplicate members
+    ("plan", r#"{"version":1,"actions":[]}"#),
+    ("plan", r#"{"id":null,"version":1,"actions":[]}"#),
+    ("plan", r#"{"version":1,"version":1,"actions":[]}"#),
+    ("plan", r#"{"version":1,"actions":[],"$schema":"a","$schema":"b"}"#),
+    ("plan", r#"{"version":1,"actions":[{"type":"delete_table","type":"delete_table","table":"t"}]}"#),
+    ("plan", r#"{"version":1,"actions":[{"table":"t","type":"delete_table","zz":1,"zz":2}]}"#),
+    ("plan", r#"{"version":1,"actions":[{"type":"modify_column_type","table":"t","column":"c","new_type":"text","fill_with":{"b":"1","a":"2","b":"3"}}]}"#),
+    ("plan", r#"{"version":1,"actions":[{"type":"modify_column_type","table":"t","column":"c","new_type":"text","fill_with":null}]}"#),
+    ("plan", r#"{"version":1,"actions":[{"type":"modify_column_type","table":"t","column":"c","new_type":"text","fill_with":{"a":1}}]}"#),
+    ("plan", r#"{"version":4294967296,"actions":[]}"#),
+    ("plan", r#"{"version":1.0,"actions":[]}"#),
+    ("plan", r#"{"version":-0,"actions":[]}"#),
+    ("table", r#"{"name":"t","columns":[{"name":"c","type":{"kind":"varchar","length":4294967296},"nullable":true}]}"#),
+    ("table", r#"{"name":"t","columns":[{"name":"c","type":{"kind":"enum","name":"e","values":[{"name":"a","value":2147483648}]},"nullable":true}]}"#),
+    ("table", r#"{"name":"t","columns":[{"name":"c","type":"real","nullable":true,"default":1.0}]}"#),
+    ("table", r#"{"name":"t","columns":[{"name":"c","type":"real","nullable":true,"default":-9223372036854775809}]}"#),
+    ("table", r#"{"name":"t","columns":[{"name":"c","type":"real","nullable":true,"default":[1]}]}"#),
+];
 
 /// Minimal witnesses of the spots where Serialize is not injective (replayed on the real serde on
 /// every run; they match the `_refuted` lemmas of Properties/C12.v).
